@@ -377,6 +377,7 @@ fn main() {
         "paired" => paired::cmd_paired(rest),
         "reload" => reload::cmd(rest),
         "reload-edges" => reload::cmd_edges(rest),
+        "reload-kinds" => reload::cmd_kinds(rest),
         "parse-probe" => parseprobe::cmd_parse_probe(rest),
         "lex-enum" => parseprobe::cmd_lex_enum(rest),
         "sexpr-tree" => parseprobe::cmd_sexpr_tree(rest),
